@@ -284,7 +284,9 @@ impl Drop for SimScheduler {
 fn config() -> Config {
     let mut c = Config::new();
     c.failure_persistence = FailurePersistence::None;
-    c.max_steps = MaxSteps::FailAfter(200_000);
+    // no step bound: a scheme with tens of thousands of blocks on a million-element vector legitimately takes
+    // millions of scheduling steps; a genuine livelock is the business of the wall-clock watchdog
+    c.max_steps = MaxSteps::None;
     c.stack_size = 0x10000;
     c.silence_warnings = true;
     c
